@@ -119,14 +119,22 @@ func Metacall(t *Thread, obj Value, method string, args []Value, next Cont) (err
 // metamethod and returns the continuations that needs to be run to get the
 // results.
 func Continue(t *Thread, f Value, next Cont) (Cont, error) {
+	return continueDepth(t, f, next, 0)
+}
+
+func continueDepth(t *Thread, f Value, next Cont, depth int) (Cont, error) {
 	callable, ok := f.TryCallable()
 	if ok {
 		return callable.Continuation(t, next), nil
 	}
-	cont, err, ok := metacont(t, f, "__call", next)
-	if !ok {
+	if depth >= maxIndexChainLength {
+		return nil, errors.New("'__call' chain too long; possible loop")
+	}
+	mm := t.metaGetS(f, "__call")
+	if mm.IsNil() {
 		return nil, fmt.Errorf("attempt to call a %s value", f.CustomTypeName())
 	}
+	cont, err := continueDepth(t, mm, next, depth+1)
 	if cont != nil {
 		t.Push1(cont, f)
 	}
@@ -139,15 +147,21 @@ func Call(t *Thread, f Value, args []Value, next Cont) error {
 	if f.IsNil() {
 		return errors.New("attempt to call a nil value")
 	}
-	callable, ok := f.TryCallable()
-	if ok {
-		return t.call(callable, args, next)
+	// f may be a value whose '__call' metamethod is itself such a value, and
+	// so on: follow the chain (which cannot be arbitrarily long).
+	for i := 0; i < maxIndexChainLength; i++ {
+		callable, ok := f.TryCallable()
+		if ok {
+			return t.call(callable, args, next)
+		}
+		mm := t.metaGetS(f, "__call")
+		if mm.IsNil() {
+			return fmt.Errorf("attempt to call a %s value", f.CustomTypeName())
+		}
+		args = append([]Value{f}, args...)
+		f = mm
 	}
-	err, ok := Metacall(t, f, "__call", append([]Value{f}, args...), next)
-	if ok {
-		return err
-	}
-	return fmt.Errorf("attempt to call a %s value", f.CustomTypeName())
+	return errors.New("'__call' chain too long; possible loop")
 }
 
 // Call1 is a convenience method that calls f with arguments args and returns
